@@ -3,7 +3,9 @@
 spec/TemplatesLib.tla  labelled residue graphs, Iso (P) / Canon (I), rational vectors, centring, polynomial virtual sites
 spec/TpGroup.tla       all residue pairs (<= 4 atoms, all connected bond graphs, relisted, same/other resname, joined/separate)
 spec/Templates.tla     I-layer ParseVolume / ParseTemplate / Finalize / Gen over the tables vols, tmpl, r2h; P-layer Tagged,
-                       UserTemplateWins, UserVolumeWins, UserTemplateUnchanged, UserSticks
+                       UserTemplateWins, UserVolumeWins, UserTemplateUnchanged, UserSticks; the key function at its two call
+                       sites (KeySitesAgree) and the processor-wide memory of GenerateTemplates (GeneratedOnce,
+                       OneTemplatePerKey, SizeBelongs: one template and size per key in the WHOLE system)
 spec/TpVS.tla          kinds 2, 3, n, 3out as rationals on lattice inputs: code shape = GROMACS formula, exact equivariance
 S->I : the three exports rendered as real .top / .bld files and run through Topology -> build file -> GenerateTemplates
        (grouping, precedence) or parsed .top + construct_vs (virtual sites).
@@ -48,6 +50,53 @@ def shared_templates(top):
     return t
 
 
+def held_view(top, uservals, user_coords, radii):
+    """What every residue is actually built from, molecule by molecule (the tables above merge the molecules):
+    held[m][i]   version of the template molecule m ITSELF holds under the key of its residue i: -1 none, 0 the user's coordinates,
+                 n = the n-th distinct other coordinate set met under that key, molecules taken in order (one template per key in the
+                 whole system <=> every generated one is version 1);
+    sizeok[m][i] a size that is not a user value is the size of exactly that template (independent formula tmpl_util.template_size).
+    user_coords(m, i, names) -> list of candidate centred user coordinates in the order of `names` (every [ template ] with these atom
+    names); radii(m, i, names) -> radius per atom"""
+    seen, held, sizeok = {}, [], []
+    for m, mm in enumerate(top.molecules):
+        own = getattr(mm, "templates", None) or {}
+        hrow, srow = [], []
+        for i, nd in enumerate(mm.nodes):
+            h = mm.nodes[nd].get("template")
+            t = own.get(h)
+            if t is None:
+                hrow.append(-1)
+                srow.append(False)
+                continue
+            names = sorted(t)
+            arr = np.array([np.asarray(t[a], float) for a in names])
+            if any(u.shape == arr.shape and np.abs(arr - u).max() <= TOL for u in user_coords(m, i, names)):
+                ver = 0
+            else:
+                known = seen.setdefault(str(h), [])
+                idx = next((j for j, a in enumerate(known) if a.shape == arr.shape and np.array_equal(a, arr)), None)
+                if idx is None:
+                    known.append(arr)
+                    idx = len(known) - 1
+                ver = idx + 1
+            hrow.append(ver)
+            vol = top.volumes.get(h)
+            if vol is None or not np.isfinite(vol):
+                srow.append(False)
+            elif float(vol) in uservals:
+                srow.append(True)
+            else:
+                try:
+                    size, conclusive = tu.template_size(arr, radii(m, i, names))
+                    srow.append(bool(not conclusive or abs(size - float(vol)) <= 1e-9))
+                except Exception:
+                    srow.append(False)
+        held.append(hrow)
+        sizeok.append(srow)
+    return held, sizeok
+
+
 # ------------------------------------------------------------------------------------------------ S -> I : grouping
 
 def run_group_case(case, wd):
@@ -67,10 +116,19 @@ def run_group_case(case, wd):
         hs = [h for m in node_hashes(top) for h in m]
         tm = shared_templates(top)
         vols = top.volumes
+        held, sizeok = held_view(top, set(), lambda m, i, names: [], lambda m, i, names: [tu.ATOMTYPES["P"]] * len(names))
     except Exception as exc:
         return "exception", "%s: %s" % (type(exc).__name__, exc)
     if len(hs) != 2:
         return "differs", "expected two residues, found %d" % len(hs)
+    # Templates.tla OneTemplatePerKey / SizeBelongs: no build file here, so every residue - in whichever molecule - is backed by the
+    # first and only generated template of its key, and the size of the key is the size of that template
+    if [v for row in held for v in row] != [1, 1]:
+        return "differs", "residues %s%s and %s%s (%s): versions of the template held by the residue's own molecule %s, specification [1, 1] (one template per key in the whole system)" % (
+            case["rnx"], case["x"], case["rny"], case["y"], "one molecule" if case["joined"] else "two moleculetypes", held)
+    if not all(v for row in sizeok for v in row):
+        return "differs", "residues %s%s and %s%s: the size of a key is not the size of the template the residue is built from: %s" % (
+            case["rnx"], case["x"], case["rny"], case["y"], sizeok)
     same = hs[0] == hs[1]
     if same != case["same"]:
         return "differs", "residues %s%s and %s%s: the code gives them %s template key, the specification says %s" % (
@@ -92,6 +150,9 @@ def render_prec_case(case, wd):
     content = case["content"]
     mts, mols = [], []
     for m, keys in enumerate(case["sys"]):
+        if m and keys == case["sys"][m - 1]:
+            mols[-1][1] += 1          # the same molecule again: a second INSTANCE of one moleculetype (otherwise one moleculetype each)
+            continue
         residues = [res_from_graph(content[k]["nm"], content[k]["ed"], content[k]["rn"]) for k in keys]
         mts.append(tu.molecule_from_residues("M%d" % (m + 1), residues, [(i, i + 1) for i in range(len(keys) - 1)]))
         mols.append(["M%d" % (m + 1), 1])
@@ -105,6 +166,8 @@ def render_prec_case(case, wd):
             entries.append(("volumes", [[b["rn"], b["v"] / 1000.0]]))
     wd.mkdir(parents=True, exist_ok=True)
     (wd / "sys.top").write_text(tu.render_top({"atomtypes": tu.ATOMTYPES, "moltypes": mts, "molecules": mols}))
+    if case.get("nobld"):
+        return wd / "sys.top", None       # no build file at all: nothing is attached to the molecules before GenerateTemplates
     (wd / "sys.bld").write_text(tu.render_bld(entries))
     return wd / "sys.top", wd / "sys.bld"
 
@@ -146,6 +209,17 @@ def project_prec(case, top):
         else:
             vsrc, v = "computed", 0
         out[k] = {"tsrc": tsrc, "vsrc": vsrc, "v": v}
+
+    def user_coords(m, i, names):
+        ct = content[case["sys"][m][i]]
+        if sorted(ct["nm"]) != list(names):
+            return []
+        u = np.array(ct["u"], float) * H
+        u = u - u.mean(axis=0)
+        return [np.array([u[ct["nm"].index(a)] for a in names])]
+    if len(top.molecules) == len(case["sys"]):
+        held, sizeok = held_view(top, uservals, user_coords, lambda m, i, names: [tu.ATOMTYPES["P"]] * len(names))
+        out["#held"], out["#sizeok"] = held, sizeok
     return out, problems
 
 
@@ -153,8 +227,8 @@ def run_prec_case(case, wd):
     """-> (verdict, detail, observed projection)"""
     top_p, bld_p = render_prec_case(case, wd)
     try:
-        top = tu.load_topology(top_p, [bld_p])
-        tu.generate_templates(top)
+        top = tu.load_topology(top_p, [bld_p] if bld_p else [])
+        tu.generate_templates(top, skip_filter=bool(case.get("skip_filter")))
         obs, problems = project_prec(case, top)
     except Exception as exc:
         return "exception", "%s: %s" % (type(exc).__name__, exc), None
@@ -164,11 +238,21 @@ def run_prec_case(case, wd):
 
 
 def expected_proj(case):
-    return {k: {"tsrc": v["tsrc"], "vsrc": v["vsrc"], "v": v["v"]} for k, v in case["keys"].items()}
+    exp = {k: {"tsrc": v["tsrc"], "vsrc": v["vsrc"], "v": v["v"]} for k, v in case["keys"].items()}
+    exp["#held"] = [[int(x) for x in row] for row in case["held"]]
+    exp["#sizeok"] = [[bool(x) for x in row] for row in case["sizeok"]]
+    return exp
 
 
 def case_key(case):
-    return json.dumps([case["sys"], [[b["e"], b["k"], b["rn"]] for b in case["bld"]]])
+    return json.dumps([case["sys"], [[b["e"], b["k"], b["rn"]] for b in case["bld"]], bool(case.get("nobld"))])
+
+
+def may_skip_filter(case):
+    """-skip_filter refuses (IOError, documented) a system in which one residue name stands for two contents"""
+    used = {k for m in case["sys"] for k in m}
+    rns = [case["content"][k]["rn"] for k in used]
+    return len(rns) == len(set(rns))
 
 
 # ------------------------------------------------------------------------------------------------ S -> I : virtual sites
@@ -262,8 +346,9 @@ def replay_cases(ck, kind, cases, code_cases=None):
             exp = expected_proj(case)
             if obs != exp:
                 asc = code_cases.get(case_key(case)) if code_cases else None
-                what = "system %s, build file %s: tables of the code %s, specification %s" % (
-                    case["sys"], [(b["e"], b["k"] or b["rn"], b["v"]) for b in case["bld"]], json.dumps(obs, sort_keys=True), json.dumps(exp, sort_keys=True))
+                what = "system %s, %s%s: tables of the code %s, specification %s" % (
+                    case["sys"], "NO build file" if case.get("nobld") else "build file %s" % [(b["e"], b["k"] or b["rn"], b["v"]) for b in case["bld"]],
+                    ", -skip_filter" if case.get("skip_filter") else "", json.dumps(obs, sort_keys=True), json.dumps(exp, sort_keys=True))
                 if asc is not None and obs == expected_proj(asc):
                     # diagnostic only: the result equals the I-layer with DevVolLost, i.e. the repaired defect F21 is back
                     what += "  [= behaviour of the repaired defect F21 %s]" % SIG_VOL
@@ -322,7 +407,10 @@ class TRecorder:
             return success, out
 
         def run_molecule(self_, meta_molecule):
-            before = set(map(str, self_.templates)) | set(map(str, getattr(meta_molecule, "templates", {}) or {}))
+            # everything the processor or the molecule holds before the call, BY OBJECT: a key that is generated a second time
+            # (new coordinates under a key that had some) is a generation event like the first one
+            before = {str(k): v for k, v in (getattr(meta_molecule, "templates", {}) or {}).items()}
+            before.update({str(k): v for k, v in self_.templates.items()})
             r = rec.o_run(self_, meta_molecule)
             rec.mol += 1
             tags = [str(meta_molecule.nodes[n].get("template")) for n in meta_molecule.nodes]
@@ -330,7 +418,8 @@ class TRecorder:
             for h, t in zip(tags, types):
                 if [h, t] not in rec.hmap:
                     rec.hmap.append([h, t])
-            gen = [rec.monitor(str(h), self_.templates[h], self_.volumes.get(h)) for h in self_.templates if str(h) not in before]
+            gen = [rec.monitor(str(h), self_.templates[h], self_.volumes.get(h)) for h in self_.templates
+                   if str(h) not in before or self_.templates[h] is not before[str(h)]]
             rec.log("G", self_.volumes, self_.templates, mol=rec.mol, tags=tags, gen=gen)
             return r
         bfp.BuildDirector.finalize_section = finalize_section
@@ -364,11 +453,33 @@ class TRecorder:
                     if np.abs(np.array([np.asarray(t[n], float) for n in e["names"]]) - user).max() <= TOL:
                         src = "user"
             tm.append([str(h), src])
-        ev = {"op": op, "vols": vols, "tmpl": tm, "hmap": [list(p) for p in self.hmap]}
+        ev = {"op": op, "vols": vols, "tmpl": tm, "hmap": [list(p) for p in self.hmap], "held": [], "sizeok": []}
         ev.update(extra)
         if op != "G":
             ev.update({"mol": 0, "tags": [], "gen": []})
         self.events.append(ev)
+
+    def log_end(self, top, case):
+        """event "E": what every residue is built from in its own molecule, after the whole system has been processed"""
+        uservals = {e["v"] / 1000.0 for e in self.entries if e["e"] == "V"}
+        tents = [e for e in self.entries if e["e"] == "T"]
+
+        def user_coords(m, i, names):
+            out = []
+            for e in tents:
+                if sorted(e["names"]) == list(names):
+                    u = np.array(e["coords"], float)
+                    u = u - u.mean(axis=0)
+                    out.append(np.array([u[e["names"].index(a)] for a in names]))
+            return out
+
+        def radii(m, i, names):
+            res = case["resdefs"][case["sys"][m][i]]
+            return [tu.ATOMTYPES[res["atypes"][res["names"].index(a)]] for a in names]
+        held, sizeok = held_view(top, uservals, user_coords, radii)
+        last = self.events[-1] if self.events else {"vols": [], "tmpl": [], "hmap": []}
+        self.events.append({"op": "E", "vols": last["vols"], "tmpl": last["tmpl"], "hmap": last["hmap"], "mol": 0, "tags": [], "gen": [],
+                            "held": held, "sizeok": sizeok})
 
     # ---- numeric monitor of one generated template
     def monitor(self, h, tmpl, size):
@@ -467,11 +578,26 @@ def random_case(sd):
         types.append(res)
     if rng.random() < 0.6:
         types.append(relist(rng, types[int(rng.integers(0, len(types)))]))
+    # round 4: (a) a LARGE residue type (16-24 atoms; the key of a residue must not depend on where it is computed, whatever its size),
+    # mostly with a [ template ] in the build file; (b) runs without any build file, where nothing but the memory of GenerateTemplates
+    # itself connects the molecules.  Decisions drawn from a second stream so that the small part of the system stays as it was.
+    rng2 = np.random.default_rng([sd, 4])
+    large = set()
+    if rng2.random() < 0.35:
+        big = tu.large_residue(rng2, "RL")
+        large.add(len(types))
+        types.append(big)
+        if rng2.random() < 0.3:
+            large.add(len(types))
+            types.append(relist(rng2, big))
+    nobld = bool(rng2.random() < 0.2)
     tids = ["s%dt%d" % (sd, i) for i in range(len(types))]
     moltypes, mols, node_types = [], [], []
     for m in range(int(rng.integers(1, 4))):
         nres = int(rng.integers(1, 5))
         pick = [int(rng.integers(0, len(types))) for _ in range(nres)]
+        if large and m == 0 and not (set(pick) & large):
+            pick[int(rng2.integers(0, nres))] = min(large)            # a large type that exists is used
         edges = [(int(rng.integers(0, i)), i) for i in range(1, nres)]
         moltypes.append(tu.molecule_from_residues("M%d" % m, [types[i] for i in pick], edges, rng))
         cnt = int(rng.integers(1, 3))
@@ -482,7 +608,7 @@ def random_case(sd):
     order = [int(i) for i in rng.permutation(len(types))]
     for i in order:
         cn = canon_py(types[i])
-        if cn not in done_c and rng.random() < 0.45:
+        if cn not in done_c and (rng.random() < 0.45 or (i in large and rng2.random() < 0.6)):
             done_c.add(cn)
             res = relist(rng, types[i]) if rng.random() < 0.5 else types[i]
             coords = [[round(float(x), 3) for x in rng.uniform(-0.4, 0.4, size=3)] for _ in res["names"]]
@@ -502,8 +628,11 @@ def random_case(sd):
     content = {tid: {"rn": r["resname"], "nm": r["names"],
                      "ed": [[r["names"].index(a) + 1, r["names"].index(b) + 1] for a, b, _ in r["bonds"] + r["constraints"]]}
                for tid, r in zip(tids, types)}
+    if nobld:
+        entries, bld = [], []
     return {"seed": sd, "system": {"atomtypes": tu.ATOMTYPES, "moltypes": moltypes, "molecules": mols}, "entries": entries, "bld": bld,
-            "types": tids, "content": content, "sys": node_types, "skip_filter": bool(rng.random() < 0.3)}
+            "types": tids, "content": content, "sys": node_types, "skip_filter": bool(rng.random() < 0.3), "nobld": nobld,
+            "resdefs": dict(zip(tids, types)), "large": sorted(tids[i] for i in large)}
 
 
 def _trace_run(arg):
@@ -514,11 +643,12 @@ def _trace_run(arg):
     np.random.seed(sd % (2 ** 32))
     case = random_case(sd)
     (wd / "sys.top").write_text(tu.render_top(case["system"]))
-    (wd / "sys.bld").write_text(tu.render_bld(case["entries"]) if case["entries"] else "; no entries\n")
+    if not case["nobld"]:
+        (wd / "sys.bld").write_text(tu.render_bld(case["entries"]) if case["entries"] else "; no entries\n")
     rec = TRecorder(case["bld"], case["sys"])
     exc = None
     try:
-        top = tu.load_topology(wd / "sys.top", [wd / "sys.bld"])
+        top = tu.load_topology(wd / "sys.top", [] if case["nobld"] else [wd / "sys.bld"])
         if case["skip_filter"]:
             from polyply.src.check_residue_equivalence import check_residue_equivalence
             try:
@@ -526,6 +656,7 @@ def _trace_run(arg):
             except IOError:
                 case["skip_filter"] = False       # equal names, different shape: the documented refusal of -skip_filter; use the default mode
         tu.generate_templates(top, skip_filter=case["skip_filter"])
+        rec.log_end(top, case)
     except tu.ItemTimeout:
         raise
     except c.MachineryError:
@@ -536,10 +667,11 @@ def _trace_run(arg):
     finally:
         rec.close()
     raws = [[g.pop("raw") for g in ev["gen"]] for ev in rec.events]
-    return {"seed": sd, "case": {k: case[k] for k in ("system", "entries", "bld", "skip_filter")}, "exception": exc,
-            "trace": {"types": case["types"], "sys": case["sys"], "bld": [{"e": b["e"], "t": b.get("t", ""), "rn": b["rn"], "v": b.get("v", 0)} for b in case["bld"]],
+    return {"seed": sd, "case": {k: case[k] for k in ("system", "entries", "bld", "skip_filter", "nobld")}, "exception": exc,
+            "trace": {"types": case["types"], "sys": case["sys"], "nobld": case["nobld"],
+                      "bld": [{"e": b["e"], "t": b.get("t", ""), "rn": b["rn"], "v": b.get("v", 0)} for b in case["bld"]],
                       "events": rec.events},
-            "content": case["content"], "raw": raws}
+            "content": case["content"], "raw": raws, "large": case["large"]}
 
 
 def vs_samples(rng, n):
@@ -702,28 +834,33 @@ def binding_demo(ck, runs, rejected, vs, badvs):
     ev3 = next((ev for ev in d3["trace"]["events"] if any(v[1] == "user" for v in ev["vols"])), d3["trace"]["events"][-1])
     tgt = next((v for v in ev3["vols"] if v[1] == "user"), ev3["vols"][0])
     tgt[1], tgt[2] = ("computed", 0) if tgt[1] == "user" else ("user", 123)
+    d5 = json.loads(json.dumps(base))
+    d5["trace"]["events"][-1]["held"][-1][-1] += 1        # the last residue is backed by ANOTHER version of the template of its key
     r1, _ = validate(ck, [d1], [], "corrupt1", count=False)
     r2, _ = validate(ck, [d2], [], "corrupt2", count=False)
     r3, _ = validate(ck, [d3], [], "corrupt3", count=False)
+    r5, _ = validate(ck, [d5], [], "corrupt5", count=False)
     okvs = [v for i, v in enumerate(vs, 1) if i not in badvs][:2]
     if len(okvs) < 2:
         okvs = [{"kind": "synthetic", "matches_gmx": True, "equivariant": True}] * 2
     vsbad = json.loads(json.dumps([{k: v[k] for k in ("kind", "matches_gmx", "equivariant")} for v in okvs]))
     vsbad[1]["equivariant"] = False
     _, r4 = validate(ck, [base], vsbad, "corrupt4", count=False)
-    if 1 not in r1 or 1 not in r2 or 1 not in r3 or r4 != [2]:
-        raise c.MachineryError("binding demonstration failed: corrupted records accepted (%s %s %s %s)" % (r1, r2, r3, r4))
-    ck.extra["binding_demo"] = ("a generated-template record with cog0=false, a residue carrying a foreign hash, a size whose source is altered and a construct_vs "
-                                "sample with equivariant=false are each rejected by TpTrace")
+    if 1 not in r1 or 1 not in r2 or 1 not in r3 or r4 != [2] or 1 not in r5:
+        raise c.MachineryError("binding demonstration failed: corrupted records accepted (%s %s %s %s %s)" % (r1, r2, r3, r4, r5))
+    ck.extra["binding_demo"] = ("a generated-template record with cog0=false, a residue carrying a foreign hash, a size whose source is altered, a construct_vs "
+                                "sample with equivariant=false and a residue backed by a second version of its key's template are each rejected by TpTrace")
 
 
-SYNTHETIC = {"seed": -1, "content": {"syn0": {"rn": "RS", "nm": ["A", "B"], "ed": [[1, 2]]}}, "raw": [[], [], [{}]],
-             "trace": {"types": ["syn0"], "sys": [["syn0"]], "bld": [{"e": "V", "t": "", "rn": "RS", "v": 500}],
-                       "events": [{"op": "V", "vols": [["RS", "user", 500, True]], "tmpl": [], "hmap": [], "mol": 0, "tags": [], "gen": []},
-                                  {"op": "F", "vols": [["RS", "user", 500, True]], "tmpl": [], "hmap": [], "mol": 0, "tags": [], "gen": []},
-                                  {"op": "G", "vols": [["RS", "user", 500, True], ["h1", "user", 500, True]], "tmpl": [["h1", "generated"]],
-                                   "hmap": [["h1", "syn0"]], "mol": 1, "tags": ["h1"],
-                                   "gen": [{"hash": "h1", "names_ok": True, "cog0": True, "size_pos": True, "vs_ok": True, "equiv_ok": True, "targets_ok": True}]}]}}
+_SYN_G = {"op": "G", "vols": [["RS", "user", 500, True], ["h1", "user", 500, True]], "tmpl": [["h1", "generated"]],
+          "hmap": [["h1", "syn0"]], "mol": 1, "tags": ["h1"], "held": [], "sizeok": [],
+          "gen": [{"hash": "h1", "names_ok": True, "cog0": True, "size_pos": True, "vs_ok": True, "equiv_ok": True, "targets_ok": True}]}
+SYNTHETIC = {"seed": -1, "content": {"syn0": {"rn": "RS", "nm": ["A", "B"], "ed": [[1, 2]]}}, "raw": [[], [], [{}], [], []], "large": [],
+             "trace": {"types": ["syn0"], "sys": [["syn0"], ["syn0"]], "nobld": False, "bld": [{"e": "V", "t": "", "rn": "RS", "v": 500}],
+                       "events": [{"op": "V", "vols": [["RS", "user", 500, True]], "tmpl": [], "hmap": [], "mol": 0, "tags": [], "gen": [], "held": [], "sizeok": []},
+                                  {"op": "F", "vols": [["RS", "user", 500, True]], "tmpl": [], "hmap": [], "mol": 0, "tags": [], "gen": [], "held": [], "sizeok": []},
+                                  _SYN_G, dict(_SYN_G, mol=2, gen=[]),
+                                  dict(_SYN_G, op="E", mol=0, tags=[], gen=[], held=[[1], [1]], sizeok=[[True], [True]])]}}
 
 
 # ------------------------------------------------------------------------------------------------ entry points
@@ -744,15 +881,20 @@ def run(tier):
     ck.rule = ("S->I: (a) residue pairs of TpGroup (<= 4 atoms from the names A-D, every connected bond graph, second residue also relisted, same / other "
                "residue name, same molecule / other moleculetype) - distinct by the pair, non-trivial when both residues have >= 2 atoms (TLC decides all pairs, the quick tier replays a stratified sample and counts only replayed ones); (b) every "
                "behaviour of Templates.tla (systems of 1-2 molecules over three contents, two of them with one residue name; build files = sequences of "
-               "<= 3 distinct entries) - distinct by (system, build file), non-trivial when the build file is not empty; (c) the virtual-site cases of TpVS. "
+               "<= 3 distinct entries, or no build file at all; identical molecules rendered as two instances of one moleculetype) - distinct by (system, build file), "
+               "non-trivial when the build file is not empty or two molecules share a residue; the same for the instance with residues of 16 and 18 atoms "
+               "(templates and a size supplied for them; alternately with -skip_filter where permitted); (c) the virtual-site cases of TpVS. "
                "I->S: one trace per seeded random system (2-5 residue types of 1-9 atoms, rings, branches, all virtual-site kinds, relisted residues, "
-               "templates / volumes in random order, with and without -skip_filter)")
+               "in a third of the runs a residue of 16-24 atoms, templates / volumes in random order, a fifth of the runs without any build file, "
+               "with and without -skip_filter); the last event compares what every residue is built from across the molecules")
     ck.assumptions = ["residues have pairwise distinct atom names; residues are connected through bonds/constraints",
                       "no ties: the content of a residue determines its residue name, at most one [ template ] per content and one [ volumes ] line per name",
                       "virtual sites are constructed from real atoms (not from other virtual sites); residue definitions are geometrically feasible",
                       "exact part on a 0.25 nm lattice with rational parameters (TLC), compared at 1e-9; kinds 3fd, 3fad, 4fdn, centre of geometry, size > 0, "
                       "equivariance and optimiser targets by harness/geom_monitor.py, booleans required by TpTrace.tla",
-                      "the abstraction of the graph hash is the canonical labelled graph (hash collisions of Weisfeiler-Lehman are not modelled)"]
+                      "the abstraction of the graph hash is the canonical labelled graph (hash collisions of Weisfeiler-Lehman are not modelled)",
+                      "at most one build file per run; 'the size belongs to the template' is judged with an independent formula "
+                      "(tmpl_util.template_size, 1e-9), no verdict for a template with an atom closer than 1e-9 nm to its centre (the rule is discontinuous there)"]
     sd = c.seed()
     quick = tier == "quick"
     rng = random.Random(sd)
@@ -762,12 +904,15 @@ def run(tier):
             ("MC_Templates", "Tp_dev_UserRegen.cfg", "UserTemplateWins", "user template generated again"),
             ("MC_Templates", "Tp_dev_Recentre.cfg", "UserTemplateUnchanged", "user template re-centred around another point"),
             ("MC_Templates", "Tp_dev_VolLost.cfg", "UserVolumeWins", "repaired finding F21 %s (size by residue name deleted at the end of the build file)" % SIG_VOL),
+            ("MC_Templates", "Tp_dev_KeySites.cfg", "UserTemplateWins", "the key of a large residue differs between the build-file parser and the annotation of the residues"),
+            ("MC_Templates", "Tp_dev_ProcForgets.cfg", "OneTemplatePerKey", "GenerateTemplates keeps no memory across molecules (same key, other template per molecule)"),
             ("TpGroup", "Tp_dev_ByResname.cfg", "GroupingLaw", "grouping by residue name only"),
             ("TpVS", "Tp_dev_VSWeightSwap.cfg", "VSLaw", "virtual-site weights swapped")]
     # quick: the export run checks every law of Templates.tla on its instance, so it doubles as the model run
     named = [("group", ("TpGroup", "Tp_group.cfg", {"workers": 3})),
              ("export", ("MC_Templates", "Tp_export.cfg", {"workers": 3})),
              ("export_code", ("MC_Templates", "Tp_export_code.cfg", {"workers": 2})),
+             ("export_large", ("MC_Templates", "Tp_export_large.cfg", {"workers": 2})),
              ("vs", ("TpVS", "Tp_vs.cfg", {"workers": 1}))]
     if not quick:
         named.append(("full", ("MC_Templates", "Templates_full.cfg", {"workers": 4, "timeout": 3000})))
@@ -775,11 +920,13 @@ def run(tier):
     out = c.tlc_many([j for _, j in named], workers_each=2)
     res = {n: r for (n, _), r in zip(named, out)}
     ck.model_must_hold(res["group"], "GroupingLaw/NamesLaw/CanonLaw/OrderLaw")
-    ck.model_must_hold(res["export"], "Tagged/UserTemplateWins/UserVolumeWins/UserTemplateUnchanged/UserSticks + export")
+    LAWS = "Tagged/UserTemplateWins/UserVolumeWins/UserTemplateUnchanged/KeySitesAgree/GeneratedOnce/OneTemplatePerKey/SizeBelongs/UserSticks"
+    ck.model_must_hold(res["export"], LAWS + " + export")
+    ck.model_must_hold(res["export_large"], LAWS + " + export (residues of 16 and 18 atoms)")
     ck.add_tlc(res["export_code"])      # sensitivity export (DevVolLost): only selects and labels the behaviours in which the repaired defect F21 would show
     ck.model_must_hold(res["vs"], "VSLaw/Equivariant/Handed")
     if not quick:
-        ck.model_must_hold(res["full"], "Tagged/UserTemplateWins/UserVolumeWins/UserTemplateUnchanged/UserSticks (larger instance)")
+        ck.model_must_hold(res["full"], LAWS + " (larger instance)")
     for m, cfg, inv, what in devs:
         ck.model_must_refute(res["dev:" + cfg], inv, what)
     ck.extra["deviations_refuted"] = {cfg: inv for _, cfg, inv, _ in devs}
@@ -804,20 +951,51 @@ def run(tier):
     if not pcases or len(code_cases) != len(pcases):
         raise c.MachineryError("precedence exports disagree in size: %d vs %d" % (len(pcases), len(code_cases)))
     ndev = sum(1 for x in pcases if expected_proj(x) != expected_proj(code_cases[case_key(x)]))
-    ck.extra["precedence_behaviours_decided_by_TLC"] = len(pcases)
+    ck.extra["precedence_behaviours_decided_by_TLC"] = len(pcases)      # (+ the large-residue instance below)
     ck.extra["precedence_behaviours_sensitive_to_repaired_F21"] = ndev
     if quick:
         def pcls(x):
             return (len(x["sys"]), tuple(sorted({k for m in x["sys"] for k in m})), tuple(sorted((b["e"], b["k"] or b["rn"]) for b in x["bld"])),
-                    expected_proj(x) != expected_proj(code_cases[case_key(x)]))
+                    expected_proj(x) != expected_proj(code_cases[case_key(x)]), x["nobld"])
         psel = _stratified(pcases, pcls, rng, 2)
     else:
         psel = pcases
-    ck.extra["precedence_behaviours_replayed"] = len(psel)
-    for x in psel:
-        ck.nontrivial.add("p" + case_key(x)) if x["bld"] else None
-    ck.sample({"S->I precedence case": {k: next(x for x in psel if len(x["bld"]) == 3)[k] for k in ("sys", "bld", "keys", "tags")}})
+
+    def shares(x):      # two molecules with a common content
+        return any(set(a) & set(b) for i, a in enumerate(x["sys"]) for b in x["sys"][i + 1:])
+
+    def large_keys(x, supplied):
+        used = {k for m in x["sys"] for k in m}
+        return [k for k in sorted(used) if len(x["content"][k]["nm"]) >= 16 and supplied == any(b["e"] == "T" and b["k"] == k for b in x["bld"])]
+    # the instance with large residues: TLC decides all behaviours; generating a template of 16+ atoms costs seconds, so the quick tier
+    # replays one ordering of every (system, set of entries) in which every large residue has its [ template ] (the clause "supplied
+    # templates are used unchanged" for the size class in which a key function could change its mind) and four with a generated one
+    lcases = res["export_large"].cases()
+    if not lcases:
+        raise c.MachineryError("the large-residue export is empty")
+    ck.extra["precedence_behaviours_decided_by_TLC"] += len(lcases)
+    if quick:
+        def lcls(x):
+            return (json.dumps(x["sys"]), tuple(sorted((b["e"], b["k"] or b["rn"]) for b in x["bld"])), x["nobld"])
+        lsel = _stratified([x for x in lcases if not large_keys(x, False)], lcls, rng, 1)
+        lsel += _stratified([x for x in lcases if large_keys(x, False)], lambda x: (x["nobld"], len(x["sys"])), rng, 1)
+    else:
+        lsel = lcases
+    for i, x in enumerate(psel + lsel):
+        x["skip_filter"] = bool(i % 2 and may_skip_filter(x))
+    nlarge_user = sum(len(large_keys(x, True)) for x in lsel)
+    nshare = sum(1 for x in psel + lsel if x["nobld"] and shares(x))
+    ck.extra["precedence_behaviours_replayed"] = len(psel) + len(lsel)
+    ck.extra["precedence_replay_classes"] = {"large residue mapped to a supplied template": nlarge_user, "large residue generated": sum(len(large_keys(x, False)) for x in lsel),
+                                             "no build file, two molecules sharing a residue": nshare,
+                                             "with -skip_filter": sum(1 for x in psel + lsel if x["skip_filter"])}
+    if not nlarge_user or not nshare:
+        raise c.MachineryError("vacuous precedence replay: %s" % ck.extra["precedence_replay_classes"])
+    for x in psel + lsel:
+        ck.nontrivial.add("p" + case_key(x)) if x["bld"] or shares(x) else None
+    ck.sample({"S->I precedence case": {k: next(x for x in psel if len(x["bld"]) == 3)[k] for k in ("sys", "bld", "keys", "tags", "held")}})
     replay_cases(ck, "prec", psel, code_cases)
+    replay_cases(ck, "prec", lsel)
 
     ck.stage("S->I: virtual sites")
     vcases = res["vs"].cases()
@@ -857,7 +1035,9 @@ def run(tier):
     rejected, badvs = validate(ck, runs, vs, "traces", opt=opt)
     badopt = [-i for i in badvs if i < 0]
     badvs = [i for i in badvs if i > 0]
-    stats = {"events": 0, "generated": 0, "optimised": 0, "with_vs": 0, "user_templates": 0, "user_volumes": 0, "shared": 0}
+    stats = {"events": 0, "generated": 0, "optimised": 0, "with_vs": 0, "user_templates": 0, "user_volumes": 0, "shared": 0,
+             "runs_with_large_residue": 0, "large_residue_with_supplied_template": 0, "runs_without_build_file": 0,
+             "no_build_file_and_molecules_sharing_a_key": 0, "residues_compared_across_molecules": 0}
     for r in runs:
         for ev, raws in zip(r["trace"]["events"], r["raw"]):
             stats["events"] += 1
@@ -871,19 +1051,27 @@ def run(tier):
         stats["user_volumes"] += sum(1 for v in last["vols"] if v[1] == "user")
         hs = [h for ev in r["trace"]["events"] for h in ev["tags"]]
         stats["shared"] += 1 if len(set(hs)) < len(hs) else 0
+        stats["runs_with_large_residue"] += 1 if r["large"] else 0
+        stats["large_residue_with_supplied_template"] += 1 if any(b["e"] == "T" and b["t"] in r["large"] for b in r["trace"]["bld"]) else 0
+        stats["runs_without_build_file"] += 1 if r["trace"]["nobld"] else 0
+        per_mol = [set(ev["tags"]) for ev in r["trace"]["events"] if ev["op"] == "G"]
+        across = any(a & b for i, a in enumerate(per_mol) for b in per_mol[i + 1:])
+        stats["no_build_file_and_molecules_sharing_a_key"] += 1 if r["trace"]["nobld"] and across else 0
+        stats["residues_compared_across_molecules"] += sum(len(row) for row in last["held"]) if across else 0
     ck.evaluations += stats["events"] + len(vs)
     ck.extra["trace_stats"] = dict(stats, construct_vs_samples=len(vs))
     ck.actions.update({"events(real)": stats["events"], "templates generated(real)": stats["generated"]})
-    vacuous = not (stats["generated"] and stats["optimised"] and stats["with_vs"] and stats["user_templates"] and stats["user_volumes"] and stats["shared"])
+    vacuous = not (stats["generated"] and stats["optimised"] and stats["with_vs"] and stats["user_templates"] and stats["user_volumes"] and stats["shared"]
+                   and stats["large_residue_with_supplied_template"] and stats["no_build_file_and_molecules_sharing_a_key"])
     sample_run = next((r for r in runs if any(ev["gen"] for ev in r["trace"]["events"]) and r["trace"]["bld"]), runs[0])
     ck.sample({"I->S trace": {"bld": sample_run["trace"]["bld"], "sys": sample_run["trace"]["sys"],
-                              "events": [{k: ev[k] for k in ("op", "vols", "tmpl", "tags", "gen")} for ev in sample_run["trace"]["events"][:4]]}})
+                              "events": [{k: ev[k] for k in ("op", "vols", "tmpl", "tags", "gen", "held")} for ev in sample_run["trace"]["events"][:4] + sample_run["trace"]["events"][-1:]]}})
     ck.traces += len(runs) - len(rejected)
     for tid, matched in sorted(rejected.items()):
         r = runs[tid - 1]
         evs = r["trace"]["events"]
         what = "template trace (seed %d) rejected by TpTrace after %d matched events; next event %s; monitor %s" % (
-            r["seed"], matched, json.dumps({k: evs[matched][k] for k in ("op", "vols", "tmpl", "gen")} if matched < len(evs) else None)[:500],
+            r["seed"], matched, json.dumps({k: evs[matched][k] for k in (("op", "held", "sizeok") if evs[matched]["op"] == "E" else ("op", "vols", "tmpl", "gen"))} if matched < len(evs) else None)[:500],
             json.dumps(r["raw"][matched] if matched < len(r["raw"]) else None)[:400])
         case = {"kind": "I->S trace", "seed": r["seed"], "case": r["case"], "trace": r["trace"], "content": r["content"], "matched_events": matched}
         ck.violation(case, what=what)
